@@ -28,7 +28,7 @@ import random
 import time
 
 from .. import gen
-from ..c12_common import quiet, run_tasks
+from ..c12_common import quiet, run_tasks, collect_failures
 from ..oracle_lp import close
 
 KNOWN_KEYS = set()
@@ -339,31 +339,32 @@ def tasks_for(tier, seed):
     return tasks, specs
 
 
+def is_fixed(task):
+    """hand-made and shipped models are the FIXED part (the same for every seed), random models the SEEDED part"""
+    return task["model"][0] != "rnd"
+
+
+def witness(task):
+    return f"{task['model'][0]}:{task['model'][1]}|solution={task['solution']}|fva={task['fva']}"
+
+
 def execute(tasks, tier="quick", seed=0):
     order = list(range(len(tasks)))
     random.Random(seed).shuffle(order)
     shuffled = [tasks[i] for i in order]
     res = run_tasks(_run_task, shuffled, nproc=16, task_timeout=240 if tier == "quick" else 900)
-    failures, counts = {}, {}
+    items = []
     summaries = rows = nontrivial = 0
     for task, (status, val) in zip(shuffled, res):
         if status != "ok":
-            k = f"summary:{status}"
-            counts[k] = counts.get(k, 0) + 1
-            failures.setdefault(k, (f"task {task} ended with {status}: {val}", task))
-            continue
-        _, f, info = val
-        summaries += info["summaries"]
-        rows += info["rows"]
-        nontrivial += info["summaries"] > 0
-        for k, text in f.items():
-            counts[k] = counts.get(k, 0) + 1
-            cur = failures.get(k)
-            if cur is None or (cur[1]["fva"] is not None and task["fva"] is None):
-                failures[k] = (text, task)
-    out_f = [{"key": k, "failure": f"{text} [{counts[k]} case(s) with this key]", "replay": dict(task, key=k)}
-             for k, (text, task) in sorted(failures.items())]
-    return out_f, len(res), nontrivial, {"summaries_checked": summaries, "rows_checked": rows}
+            f = {f"summary:{status}": f"task {task} ended with {status}: {val}"}
+        else:
+            _, f, info = val
+            summaries += info["summaries"]
+            rows += info["rows"]
+            nontrivial += info["summaries"] > 0
+        items.append((is_fixed(task), witness(task), task, f))
+    return collect_failures(items), len(res), nontrivial, {"summaries_checked": summaries, "rows_checked": rows}
 
 
 def run(tier="quick", seed=0):
@@ -377,7 +378,9 @@ def run(tier="quick", seed=0):
         "distinct_nontrivial": nontrivial,
         "rule": "case = (model, solution given (FBA) or defaulted (pFBA), fva None / 0.9 / frame); each case builds the model "
                 "summary and the summary of every metabolite and every reaction and renders each 9 ways; distinct by "
-                "construction; non-trivial = at least one summary was produced and checked (models pre-selected: optimal)",
+                "construction; non-trivial = at least one summary was produced and checked (models pre-selected: optimal). "
+                "Fixed part: hand-made (thorough: + shipped textbook) models - every failing witness reported; seeded part: "
+                "random models drawn from the seed - one entry per class, witness random:<class>",
         "bounds": dict({"models": len(specs), "hand_made": len(HAND), "metabolites": "2-4", "reactions": "2-5 + boundaries",
                         "solutions": ["fba", "default"], "fva": [None, 0.9, "frame"], "seconds": round(time.time() - t0, 1)}, **extra),
         "exhaustive": False,
